@@ -11,6 +11,7 @@ import (
 	"bytes"
 	"encoding/json"
 	"fmt"
+	"reflect"
 	"strings"
 	"sync"
 	"testing"
@@ -27,12 +28,16 @@ import (
 )
 
 type heldCase struct {
-	Kind  string             `json:"kind"` // "box" | "file" | "es"
+	Kind  string             `json:"kind"`          // "box" | "file" | "es"
 	Typ   string             `json:"typ,omitempty"` // box type; "es": codec ("avc" | "hevc")
 	Items []harness.HexBytes `json:"items"`         // "es": bundles (bundleBytes of parameter sets, SEI NAL units, SEI payloads, samples)
 	SR    []bool             `json:"sr"`            // per item: SliceReader decoder (else io.Reader)
 	Par   bool               `json:"par,omitempty"` // the items are decoded by goroutines (barrier before the use)
 	Rev   bool               `json:"rev,omitempty"` // the held objects are used in reverse order
+	// Mutate: after all items are decoded, every exported field reachable from the FIRST object is overwritten
+	// (what an owner may do with its own decoded structure); the first object is not used afterwards, the others
+	// must still give the result of the run alone: independently decoded objects share no memory
+	Mutate bool `json:"mutate,omitempty"`
 }
 
 func init() { harness.RegisterReplay("held", harness.Replayer(checkHeld)) }
@@ -240,6 +245,70 @@ func esRender(vals []interface{}) string {
 	return sb.String()
 }
 
+// scramble overwrites every exported field reachable from v: numbers +1, booleans flipped, strings extended,
+// bytes of byte slices xor-ed. Unexported fields are left alone (an owner cannot reach them).
+func scramble(v reflect.Value, seen map[uintptr]bool, depth int) {
+	if depth > 40 || !v.IsValid() {
+		return
+	}
+	switch v.Kind() {
+	case reflect.Ptr:
+		if v.IsNil() || seen[v.Pointer()] {
+			return
+		}
+		seen[v.Pointer()] = true
+		scramble(v.Elem(), seen, depth+1)
+	case reflect.Interface:
+		if !v.IsNil() {
+			scramble(v.Elem(), seen, depth+1)
+		}
+	case reflect.Struct:
+		t := v.Type()
+		for i := 0; i < v.NumField(); i++ {
+			if t.Field(i).PkgPath != "" { // unexported
+				continue
+			}
+			scramble(v.Field(i), seen, depth+1)
+		}
+	case reflect.Slice:
+		if v.IsNil() {
+			return
+		}
+		if v.Len() > 0 {
+			if p := v.Pointer(); seen[p] {
+				return
+			} else {
+				seen[p] = true
+			}
+		}
+		fallthrough
+	case reflect.Array:
+		for i := 0; i < v.Len() && i < 4096; i++ {
+			scramble(v.Index(i), seen, depth+1)
+		}
+	case reflect.Int, reflect.Int8, reflect.Int16, reflect.Int32, reflect.Int64:
+		if v.CanSet() {
+			v.SetInt(v.Int() + 1)
+		}
+	case reflect.Uint, reflect.Uint8, reflect.Uint16, reflect.Uint32, reflect.Uint64:
+		if v.CanSet() {
+			if v.Kind() == reflect.Uint8 {
+				v.SetUint(v.Uint() ^ 0x5a)
+			} else {
+				v.SetUint(v.Uint() + 1)
+			}
+		}
+	case reflect.Bool:
+		if v.CanSet() {
+			v.SetBool(!v.Bool())
+		}
+	case reflect.String:
+		if v.CanSet() {
+			v.SetString(v.String() + "~")
+		}
+	}
+}
+
 func checkHeld(c heldCase) *harness.Fail {
 	n := len(c.Items)
 	if n < 2 || n > 8 || len(c.SR) != n || (c.Kind != "box" && c.Kind != "file" && c.Kind != "es") {
@@ -296,6 +365,17 @@ func checkHeld(c heldCase) *harness.Fail {
 			objs[i] = heldDecode(kind, c.Items[i], c.SR[i])
 		}
 	}
+	if c.Mutate && c.Kind != "es" {
+		func() {
+			defer func() { _ = recover() }()
+			switch {
+			case objs[0].box != nil:
+				scramble(reflect.ValueOf(objs[0].box), map[uintptr]bool{}, 0)
+			case objs[0].file != nil:
+				scramble(reflect.ValueOf(objs[0].file), map[uintptr]bool{}, 0)
+			}
+		}()
+	}
 	order := make([]int, n)
 	for i := range order {
 		order[i] = i
@@ -304,6 +384,9 @@ func checkHeld(c heldCase) *harness.Fail {
 		}
 	}
 	for _, i := range order {
+		if c.Mutate && c.Kind != "es" && i == 0 {
+			continue
+		}
 		got := heldUse(objs[i])
 		if got != alone[i] {
 			at := 0
@@ -315,6 +398,9 @@ func checkHeld(c heldCase) *harness.Fail {
 				lo = 0
 			}
 			key := "C20|held:" + api(i) + "+Info+Encode|result of an object kept while others were decoded differs from the run alone"
+			if c.Mutate {
+				key = "C20|held:" + api(i) + "+Info+Encode|result changed after the exported fields of ANOTHER, independently decoded object were overwritten"
+			}
 			if c.Kind == "es" {
 				key = "C20|held:" + c.Typ + " codec helpers|values returned earlier changed while the same calls ran on other input"
 			}
@@ -388,6 +474,7 @@ func genHeld(t *rapid.T) heldCase {
 	}
 	c.Par = rapid.IntRange(0, 2).Draw(t, "par") == 0
 	c.Rev = rapid.Bool().Draw(t, "rev")
+	c.Mutate = c.Kind != "es" && rapid.IntRange(0, 2).Draw(t, "mutate") == 0
 	return c
 }
 
@@ -408,6 +495,9 @@ func TestHeld(t *testing.T) {
 		}
 		if c.Par {
 			classes = append(classes, "held-decoded-by-goroutines")
+		}
+		if c.Mutate {
+			classes = append(classes, "held-first-object-overwritten-before-the-others-are-used")
 		}
 		allSR, anySR := true, false
 		for _, s := range c.SR {
